@@ -321,7 +321,8 @@ def corruptions(fmt, lines):
                 for b in BAD_EXPRS:
                     yield f"bad-expr@{n}", text_of(lines[:i] + [l[:e + 1] + " " + b] + lines[i + 1:]), ("malformed", n)
             if key == "priority":
-                yield f"bad-priority@{n}", text_of(lines[:i] + [l[:j + 1] + " high"] + lines[i + 1:]), ("malformed", n)
+                for bad in ("high", "70x", "7 0", "70.5", "70,", "x70", "0x46", "7e1"):
+                    yield f"bad-priority@{n}", text_of(lines[:i] + [l[:j + 1] + " " + bad] + lines[i + 1:]), ("malformed", n)
             if key in ("match", "filter"):
                 for b in (BAD_EXPRS if fmt == "m" else BAD_EXPRS_V):
                     yield f"bad-expr@{n}", text_of(lines[:i] + [l[:j + 1] + " " + b] + lines[i + 1:]), ("malformed", n)
